@@ -132,7 +132,7 @@ Definition script (c : caller) (s : scen) (n : nat) : list sstep :=
   | ScSetEarlier => [set DFuture; SSettle; set DFuture; SSettle; SMarkEarly; tick; SSettle]
   | ScSetZeroSet => [set DFuture; SSettle; set DNone; SSettle; set DFuture; SSettle; SMarkEarly; tick; SSettle]
   | ScSetPast => [set DFuture; SSettle; set DPast; SSettle]
-  | ScCleared => [set DFuture; SSettle; set DNone; SSettle; SStaleAll; SSettle; SMarkEarly] ++ wake_steps c 1
+  | ScCleared => [set DFuture; SSettle; set DNone; SSettle; SStaleAll; SSettle; SMarkEarly] ++ wake_steps c n
   end.
 
 Definition allowed (c : caller) (s : scen) (n : nat) : list (list nat) := run_script c n (script c s n).
